@@ -98,6 +98,15 @@ def gen_watches(rng, prog, cand, source):
         w = rng.choice(pool)
         if w not in out:
             out.append(w)
+    if rng.random() < 0.1:
+        # MANY fresh scalar temporaries (floats, strs, ints beyond the small-int cache) that nothing in the frame refers to:
+        # each is garbage when the next is made, CPython reuses the address - every result must still be ITS value, and two
+        # different values never share an id
+        n = rng.randint(15, 40)
+        forms = ['G_INT * 1000 + %d', 'float(G_INT) * 1.5 + %d', "G_STR + '-%d'", 'math.pi * %d', "str(%d) + G_STR",
+                 'G_INT + 100000 + %d', 'float(%d) / 7.0']
+        out += [rng.choice(forms) % (k + 2) for k in range(n)]
+        out = [w for i, w in enumerate(out) if w not in out[:i]]
     if rng.random() < 0.3:
         # two fresh temporaries of one type in a row: the first is garbage when the second is made
         out += rng.choice([['{"k": 1}', '{"k": 2}'], ['[1, 2]', '[3, 4]'], ['Plain(5)', 'Plain(6)'],
